@@ -46,6 +46,7 @@ class InputError(Exception):
     pass
 
 
+LONG_PAUSE = 1.3  # every few slow-producer cases: beyond sub-second give-up timeouts of an idle worker (seeded change C41/m5)
 PAUSE = 0.25  # seconds a slow producer stays silent: longer than any plausible polling interval of a worker
 
 
@@ -56,6 +57,7 @@ def one_run(mods, case, seed):
     n, threads, haslen, style = case["n"], case["threads"], case["haslen"], case["style"]
     out = case["out"]  # list, out[i-1] for item i
     fail_at = case.get("fail_at", -1)  # raise after that many items were handed out (-1: never)
+    pause_s = case.get("pause_s", PAUSE)  # some cases stay silent much longer (a worker that gives up after a timeout)
     pauses = set(case.get("pauses") or ())  # the input pauses before handing out these items (n + 1: before it ends)
     r = random.Random(seed)
     naps = [r.choice((0, 0, 1, 1, 2, 3)) for _ in range(3 * n + 8)]
@@ -76,12 +78,12 @@ def one_run(mods, case, seed):
             if fail_at == i - 1:
                 raise InputError(i)
             if i in pauses:
-                time.sleep(PAUSE)
+                time.sleep(pause_s)
             log.append(("feed", i))
             nap(i)
             yield i
         if n + 1 in pauses:
-            time.sleep(PAUSE)
+            time.sleep(pause_s)
         if fail_at == n:
             raise InputError(n)
 
@@ -267,6 +269,8 @@ def run(ck):
                     case = dict(n=c["n"], threads=c["threads"], haslen=c["haslen"], style=c["style"], out=list(c["out"]),
                                 kinds=list(c["kinds"]), pauses=list(c["pauses"]))
                     if case["pauses"]:
+                        if len(slow) % 4 == 0:
+                            case["pause_s"] = LONG_PAUSE
                         slow.append((case, 7))
                         continue
                     for k in range(reps):
@@ -294,6 +298,8 @@ def run(ck):
                     if case["style"] == "regen":
                         case["kinds"] = [r_.choice(["ok", "ok", "meta", "err"]) for _ in range(n)]
                         case["out"] = [1 if k_ == "err" else 0 for k_ in case["kinds"]]
+                    if k % 3 == 0:
+                        case["pause_s"] = LONG_PAUSE
                     slow.append((case, r_.randint(0, 10**6)))
                 execute_slow(slow)
                 ck.sample(dict(direction="code->spec", call={k: v for k, v in runs[-1][0].items() if k != "out"},
